@@ -30,11 +30,27 @@ type Env struct {
 	VerifDir  string
 	Deadline  time.Time // internal deadline: stop, report exhaustive:false, exit 0
 	curFile   string
-	skipUpTo  int64 // cases with Mark index <= skipUpTo are skipped after a crash restart
+	outFile   string // partial report path (worker processes)
+	skipUpTo  int64  // cases with Mark index <= skipUpTo are skipped after a crash restart
 	markIdx   int64
 }
 
 func (e *Env) Thorough() bool { return e.Tier == "thorough" }
+
+// FinishNow writes the worker's partial report and exits the process at once. It is for
+// one-case worker processes whose bubble cannot be left (library goroutines with
+// tickers keep virtual time running for ever): the case is complete, the process is not
+// worth saving. Outside a worker process it returns.
+func (e *Env) FinishNow(r *mc.Report) {
+	if e.outFile == "" {
+		return
+	}
+	if err := r.WritePartial(e.outFile); err != nil {
+		fmt.Fprintln(os.Stderr, err)
+		os.Exit(3)
+	}
+	os.Exit(0)
+}
 
 // Mine deals flat enumerations out to workers: case i belongs to shard i%Of.
 func (e *Env) Mine(i int) bool { return e.Of <= 1 || i%e.Of == e.Shard }
@@ -157,6 +173,7 @@ func main() {
 	if *worker != "" {
 		fmt.Sscanf(*worker, "%d/%d", &env.Shard, &env.Of)
 		env.curFile = *out + ".cur"
+		env.outFile = *out
 		env.skipUpTo = *skip
 		p.Run(r, env)
 		if env.Expired() {
